@@ -3,7 +3,7 @@
     Spec: Spec04.v ([Dec] = decoding of the whole byte string, [eol_norm] = XML line-end normalisation; neither
     mentions reads or buffers).  Model: Model04.v (XMLReader.cpp).  Contract on the transcoder: Contract04.v. *)
 From XV Require Import C04.Spec04 C04.Model04 C04.Contract04 C04.Proofs04a C04.Proofs04b C04.Proofs04c C04.Proofs04d C04.Proofs04e
-                       C04.Proofs04f C04.Proofs04g C04.Inst04.
+                       C04.Proofs04f C04.Proofs04g C04.Proofs04h C04.Inst04.
 From Coq Require Import Lia.
 Local Open Scope N_scope.
 
@@ -103,6 +103,42 @@ Proof.
   exact (do_op_safe step maxSeq c HC HS Hsafe fuel r cs st o H Hf).
 Qed.
 Print Assumptions T04_ops_keep_state.
+
+(** T04_pop_keeps_remaining (ReaderMgr::popReader, non-throwing path, modelled as [pop_loop] over the reader stack): when the
+    entity on top ends, a parent that still has characters -- in its buffer OR not yet decoded, e.g. because the ';' of the
+    reference was the last character of its 16K buffer -- becomes the current reader with exactly its remaining
+    characters; only a parent that is really exhausted is skipped.  So references behave the same wherever their ';'
+    falls relative to the refill points of the containing entity. *)
+Theorem T04_pop_keeps_remaining : forall step maxSeq c p rest cs st,
+  xcontract step (X c) maxSeq -> sizes_ok c maxSeq -> St step c p cs st -> (st = Clean \/ st = Truncated) -> cs <> [] ->
+  exists p', pop_reader c (p :: rest) = Ok (Some (p', rest)) /\ St step c p' cs st /\ ccur p' <> [].
+Proof.
+  intros step maxSeq c p rest cs st HC HS H Hnb Hne. exact (pop_loop_keeps step maxSeq c HC HS p rest cs st H Hnb Hne).
+Qed.
+Print Assumptions T04_pop_keeps_remaining.
+
+Theorem T04_pop_skips_exhausted : forall step maxSeq c p q rest st,
+  xcontract step (X c) maxSeq -> sizes_ok c maxSeq -> St step c p [] st -> (st = Clean \/ st = Truncated) ->
+  pop_reader c (p :: q :: rest) = pop_reader c (q :: rest) /\ pop_reader c [p] = Ok None.
+Proof.
+  intros step maxSeq c p q rest st HC HS H Hnb. split.
+  - exact (pop_loop_skips step maxSeq c HC HS p q rest st H Hnb).
+  - exact (pop_loop_last_exhausted step maxSeq c HC HS p st H Hnb).
+Qed.
+Print Assumptions T04_pop_keeps_remaining.
+
+(** non-vacuity / the breaking change it excludes: a parent whose 4-character buffer is exhausted while two more
+    characters are still undecoded; popping refills it (dropping the refresh would report the end of the input) *)
+Example T04_pop_refills_parent :
+  match run_ops (mk_cfg 3 false 4 8 2 true true) 16 (mk_reader [[0x61; 0x62; 0x63; 0x3B; 0x64; 0x65]]) [OGet; OGet; OGet; OGet] with
+  | (_, None, p) => ccur p = [] /\ noMore p = false /\
+                    match pop_reader (mk_cfg 3 false 4 8 2 true true) [p] with
+                    | Ok (Some (p', [])) => ccur p' = [0x64; 0x65]
+                    | _ => False
+                    end
+  | _ => False
+  end.
+Proof. vm_compute. auto. Qed.
 
 (** the specification is total and deterministic: every byte string has exactly one decoding *)
 Theorem T04_spec_total : forall step X maxSeq s, xcontract step X maxSeq -> exists cs st, Dec step s cs st.
